@@ -21,9 +21,10 @@ import (
 
 // Result describes a finished build.
 type Result struct {
-	Scratch string // scratch directory (remove when done)
-	Worker  string // path of the worker test binary
-	Files   int    // number of transformed emulator files
+	Scratch   string // scratch directory (remove when done)
+	Worker    string // path of the worker test binary
+	Files     int    // number of transformed emulator files
+	MapRanges int    // files in which map iterations were made deterministic
 }
 
 type importSub struct {
@@ -47,6 +48,15 @@ func Build(repo, simDir string) (*Result, error) {
 	}
 	res := &Result{Scratch: scratch, Worker: filepath.Join(scratch, "worker.test")}
 	overlay := map[string]string{}
+
+	// 0. go.mod copy with the newer language version (GODEBUG defaults, synctest)
+	if err := writeModfile(repo, scratch); err != nil {
+		return res, err
+	}
+	mapRanges, err := findMapRanges(repo, filepath.Join(scratch, "go.mod"))
+	if err != nil {
+		return res, troublef("map-range analysis: %v", err)
+	}
 
 	// 1. transformed emulator sources
 	seenSync, seenNet, seenMono, seenSupv := 0, false, false, false
@@ -83,7 +93,7 @@ func Build(repo, simDir string) (*Result, error) {
 			subs = append(subs, importSub{"os/exec", modPath + "/verifsim/simkernel/simexec", "exec"})
 			subs = append(subs, importSub{"syscall", modPath + "/verifsim/simkernel/simsyscall", "syscall"})
 		}
-		out, applied, err := transformFile(p, subs, mono)
+		out, applied, err := transformFile(p, subs, mono, mapRanges[p])
 		if err != nil {
 			return err
 		}
@@ -100,6 +110,8 @@ func Build(repo, simDir string) (*Result, error) {
 				seenMono = true
 			case "os/exec":
 				seenSupv = true
+			case "maprange":
+				res.MapRanges++
 			}
 		}
 		dst := filepath.Join(scratch, "src", rel)
@@ -147,33 +159,6 @@ func Build(repo, simDir string) (*Result, error) {
 		return res, troublef("overlay: %v", err)
 	}
 
-	// 3. go.mod copy with the newer language version (GODEBUG defaults, synctest)
-	gomod, err := os.ReadFile(filepath.Join(repo, "go.mod"))
-	if err != nil {
-		return res, troublef("read go.mod: %v", err)
-	}
-	lines := strings.Split(string(gomod), "\n")
-	found := false
-	for i, l := range lines {
-		if strings.HasPrefix(strings.TrimSpace(l), "go ") {
-			lines[i] = "go 1.26.8"
-			found = true
-			break
-		}
-	}
-	if !found {
-		return res, troublef("go.mod has no go directive")
-	}
-	if err := os.WriteFile(filepath.Join(scratch, "go.mod"), []byte(strings.Join(lines, "\n")), 0o644); err != nil {
-		return res, troublef("%v", err)
-	}
-	gosum, err := os.ReadFile(filepath.Join(repo, "go.sum"))
-	if err != nil {
-		return res, troublef("read go.sum: %v", err)
-	}
-	if err := os.WriteFile(filepath.Join(scratch, "go.sum"), gosum, 0o644); err != nil {
-		return res, troublef("%v", err)
-	}
 	ov, _ := json.MarshalIndent(map[string]interface{}{"Replace": overlay}, "", " ")
 	if err := os.WriteFile(filepath.Join(scratch, "overlay.json"), ov, 0o644); err != nil {
 		return res, troublef("%v", err)
@@ -195,13 +180,13 @@ func Build(repo, simDir string) (*Result, error) {
 	return res, nil
 }
 
-func transformFile(path string, subs []importSub, mono bool) ([]byte, []string, error) {
+func transformFile(path string, subs []importSub, mono bool, ranges map[int]bool) ([]byte, []string, error) {
 	src, err := os.ReadFile(path)
 	if err != nil {
 		return nil, nil, err
 	}
 	// cheap pre-filter
-	need := mono
+	need := mono || len(ranges) > 0
 	for _, s := range subs {
 		if bytes.Contains(src, []byte(strconv.Quote(s.from))) {
 			need = true
@@ -265,6 +250,28 @@ func transformFile(path string, subs []importSub, mono bool) ([]byte, []string, 
 			applied = append(applied, "monotime")
 		}
 	}
+	if len(ranges) > 0 {
+		if n := rewriteMapRanges(fset, f, ranges); n > 0 {
+			applied = append(applied, "maprange")
+			f.Imports = append(f.Imports, nil)[:len(f.Imports)]
+			spec := &ast.ImportSpec{Name: ast.NewIdent("verifsimsort"), Path: &ast.BasicLit{Kind: token.STRING, Value: strconv.Quote(modPath + "/verifsim/simsort")}}
+			added := false
+			for _, d := range f.Decls {
+				if gd, ok := d.(*ast.GenDecl); ok && gd.Tok == token.IMPORT {
+					gd.Specs = append(gd.Specs, spec)
+					if !gd.Lparen.IsValid() {
+						gd.Lparen = gd.Pos()
+						gd.Rparen = gd.End()
+					}
+					added = true
+					break
+				}
+			}
+			if !added {
+				f.Decls = append([]ast.Decl{&ast.GenDecl{Tok: token.IMPORT, Specs: []ast.Spec{spec}}}, f.Decls...)
+			}
+		}
+	}
 	if len(applied) == 0 {
 		return nil, nil, nil
 	}
@@ -273,4 +280,34 @@ func transformFile(path string, subs []importSub, mono bool) ([]byte, []string, 
 		return nil, nil, err
 	}
 	return out.Bytes(), applied, nil
+}
+
+func writeModfile(repo, scratch string) error {
+	gomod, err := os.ReadFile(filepath.Join(repo, "go.mod"))
+	if err != nil {
+		return troublef("read go.mod: %v", err)
+	}
+	lines := strings.Split(string(gomod), "\n")
+	found := false
+	for i, l := range lines {
+		if strings.HasPrefix(strings.TrimSpace(l), "go ") {
+			lines[i] = "go 1.26.8"
+			found = true
+			break
+		}
+	}
+	if !found {
+		return troublef("go.mod has no go directive")
+	}
+	if err := os.WriteFile(filepath.Join(scratch, "go.mod"), []byte(strings.Join(lines, "\n")), 0o644); err != nil {
+		return troublef("%v", err)
+	}
+	gosum, err := os.ReadFile(filepath.Join(repo, "go.sum"))
+	if err != nil {
+		return troublef("read go.sum: %v", err)
+	}
+	if err := os.WriteFile(filepath.Join(scratch, "go.sum"), gosum, 0o644); err != nil {
+		return troublef("%v", err)
+	}
+	return nil
 }
